@@ -33,7 +33,7 @@ class CountingClock:
 
 class Alg:
     def __init__(self, key, kind, fn, op=None, param=None, kwargs=None, req_extra=None, pre=None, needs_contents=False,
-                 relation=None, direct=None):
+                 relation=None, direct=None, unmodelled=None):
         self.key, self.kind, self.fn = key, kind, fn
         self.op = op or key
         self.param = param or ("k" if kind == "partition" else "B")
@@ -43,6 +43,7 @@ class Alg:
         self.needs_contents = needs_contents   # the model distinguishes the sums-only from the contents manager
         self.relation = relation   # relation(case, fmt, outtype, impl_answer, raw_model_answer, by_id) when not strict
         self.direct = direct       # direct(p) -> True: call the algorithm with a binner, not through the adaptor
+        self.unmodelled = unmodelled   # unmodelled(case, fmt) -> True: no strict comparison (the judges still apply)
 
     def request(self, case, ids=None, contents=True):
         p = case["p"]
@@ -122,7 +123,7 @@ def _install_clock(modname):
 reg(Alg("kk", "partition", lambda: prt.kk))
 reg(Alg("ckk", "partition", lambda: prt.ckk, needs_contents=True))
 reg(Alg("snp", "partition", lambda: prt.snp, needs_contents=True))
-reg(Alg("rnp", "partition", lambda: prt.rnp, needs_contents=True))
+reg(Alg("rnp", "partition", lambda: prt.rnp, needs_contents=True, unmodelled=lambda case, fmt: case["p"]["k"] >= 6))
 reg(Alg("cg", "partition", lambda: prt.cg,
         kwargs=lambda p: {"objective": objective_impl(p["obj"]), "use_lower_bound": bool(p["lb"]),
                           "use_fast_lower_bound": bool(p["fast"]), "use_heuristic_3": bool(p["h3"]),
@@ -163,3 +164,6 @@ reg(Alg("cbldm", "partition", lambda: prt.cbldm, op="cbldm", param="k",
                           **({} if p.get("d") is None else {"partition_difference": p["d"]})},
         req_extra=lambda p: f" d={'inf' if p.get('d') is None else p['d']} cut={_cut(p)}",
         pre=_install_clock("prtpy.partitioning.cbldm")))
+
+reg(Alg("bin_completion", "pack", lambda: prtpy.packing.bin_completion,
+        unmodelled=lambda case, fmt: fmt not in ("list", "array")))     # names != values: finding KF4
